@@ -219,8 +219,17 @@ def check_json(case, ctx):
 def _mesh_cases(draw, tier):
     kind = draw(st.sampled_from(["surface", "volume"]))
     n = draw(st.sampled_from([1, 1, 2, 3, 4]))
-    shapes = [draw(gen.spline(kinds=(kind,), max_p=3, max_extra=3, different=True, vol_max_p=2, vol_max_extra=2, unclamped="maybe")) for _ in range(n)]
+    shapes = [_ordinary_weights(draw(gen.spline(kinds=(kind,), max_p=3, max_extra=3, different=True, vol_max_p=2, vol_max_extra=2, unclamped="maybe")))
+              for _ in range(n)]
     return {"shapes": shapes}
+
+
+def _ordinary_weights(d):
+    """The mesh and text formats print a fixed number of decimals ("up to the printed precision"): weights of order 1e-9
+    (the 2^-30 class of gen.weights) do not survive that and are outside what these formats can carry; scale them back."""
+    if d["rational"] and max(d["W"]) < 2.0 ** -20:
+        d["W"] = [w * 2.0 ** 30 for w in d["W"]]
+    return d
 
 
 def _parse_mesh(text, pdim):
@@ -287,7 +296,7 @@ def check_mesh(case, ctx):
 # ------------------------------------------------------------------------------------------------ txt / csv
 @st.composite
 def _txt_cases(draw, tier):
-    d = draw(gen.spline(kinds=("curve", "surface"), max_p=3, max_extra=4, different=True))
+    d = _ordinary_weights(draw(gen.spline(kinds=("curve", "surface"), max_p=3, max_extra=4, different=True)))
     return {"defn": d, "sep": draw(st.sampled_from([",", " ", "\t", ";"])), "col": draw(st.sampled_from([";", "|", ",", " ; "])),
             "two": draw(st.booleans())}
 
